@@ -249,7 +249,20 @@ func (e *eng) everyCrashPoint() {
 	r.Logf("config %s: uninterrupted run yields %d graphs", e.c, len(e.R))
 	master := e.newIter()
 	L := len(e.R)
+	stride := 1
+	if L > 3000 {
+		// very long outputs (n = 10): crash points are sampled; not part of the exhaustive claim
+		stride = L / 40
+		r.Probe("crash-points-sampled-for-very-long-output")
+	}
 	for k := 0; k <= L+1; k++ {
+		if stride > 1 && k > 5 && k < L-5 && k%stride != 0 {
+			// keep the original in step without a crash here
+			if s := e.next(master, "original"); s != e.R[k] {
+				r.Fail("wrong-suffix", "original", "%s: the original yields %q at position %d, the reference %q", e.c, s, k, e.R[k])
+			}
+			continue
+		}
 		// master is at position min(k, L) having made k Next calls (the (L+1)-th returned false)
 		mark := len(r.Trace)
 		mode := k % len(readerNames)
@@ -438,6 +451,60 @@ func (e *eng) chain() {
 	r.Nontrivial = L >= 2 && restores+forks >= 1
 }
 
+// ---- window mode: searches far too long to enumerate (n = 9, 10) ----------------------------
+//
+// The original is advanced k steps, saved, restored through a tape-chosen reader; then the
+// original and the clone are advanced in lock step for a window of steps and must agree on
+// every step (graph or exhaustion). No reference list is needed, so the DFS levels with
+// hundreds of augmentation candidates, which only exist from n = 9 on, are reached.
+func (e *eng) window() {
+	r := e.r
+	t := r.T
+	orig := e.newIter()
+	limit := 5000 + t.Draw(30000)
+	gap := 50 + t.Draw(400)
+	r.Logf("config %s (window mode): one pass over the first %d graphs; every ~%d steps: Save, Load, and the clone must reproduce the next steps of the original", e.c, limit, gap)
+	pos := 0
+	probes := 0
+	for pos < limit {
+		// advance to the next probe position
+		adv := gap/2 + t.Draw(gap)
+		done := false
+		for i := 0; i < adv; i++ {
+			if e.next(orig, "original") == "" {
+				done = true
+				break
+			}
+			pos++
+		}
+		data := e.save(orig, fmt.Sprintf("original after %d Next", pos))
+		mode := t.Draw(len(readerNames))
+		r.Fault("crash-restart")
+		clone := e.load(data, mode, fmt.Sprintf("restart at k=%d", pos))
+		probes++
+		w := 40 + t.Draw(260)
+		for i := 0; i < w; i++ {
+			a := e.next(orig, "original")
+			b := e.next(clone, "restored iterator")
+			if a != b {
+				r.Fail("wrong-suffix", "window", "%s: %d steps after a Save/Load at position %d the original yields %q and the restored iterator %q", e.c, i, pos, a, b)
+			}
+			if a == "" {
+				done = true
+				break
+			}
+			pos++
+		}
+		if done {
+			break
+		}
+	}
+	r.Count("window_probes", int64(probes))
+	r.Probe("window-mode-large-search")
+	r.Obs(uint64(pos), uint64(probes))
+	r.Nontrivial = true
+}
+
 // ---- configurations ----------------------------------------------------------------------
 
 func configs(tier string) []config {
@@ -457,6 +524,11 @@ func configs(tier string) []config {
 				}
 			}
 		}
+	}
+	// n = 10, triangle-free: long DFS paths and > 255 augmentations per level (sampled crash points)
+	cs = append(cs, config{10, 0, 1, 0, 0})
+	if tier == "thorough" {
+		cs = append(cs, config{10, 1, 2, 0, 1}, config{10, 0, 1, 6, 0}, config{9, 0, 1, -1, 0})
 	}
 	am := [][2]int{{0, 1}, {0, 2}, {1, 2}, {2, 3}}
 	if tier != "thorough" {
@@ -495,7 +567,7 @@ func cfgs(tier string) []config {
 	return c
 }
 
-const scope = "for every enumerated configuration: every save position k in 0..len(R)+1 (crash after every Next, before the first, after exhaustion)"
+const scope = "for every enumerated configuration with at most 3000 output graphs (all but the n = 9/10 ones, whose crash points are sampled): every save position k in 0..len(R)+1 (crash after every Next, before the first, after exhaustion)"
 
 func main() {
 	driver.Main(&driver.Spec{
@@ -503,7 +575,7 @@ func main() {
 		Engine:   "checkpoint",
 		Level:    "fault_enumeration",
 		Rule: "enumerated case = one configuration (n, a, m, predicate, placement; all a < m <= 3 [4 thorough], unpruned + 4 predicates x 2 placements, n <= 6 [7 thorough]; plus n = 7 [8 thorough] for the pruned families and some shards): the uninterrupted output R is recorded (twice, must agree), then for EVERY k in 0..len(R)+1 the iterator is saved after k Next calls (before the first, after every one, after exhaustion), abandoned ('crash'), restored from those bytes through a reader that cycles over {plain, one byte at a time, short reads, data together with EOF, zero-length reads}, and the restored iterator must yield exactly R[k:] and then false for ever, while the original, advanced after the Save, must stay on R. " +
-			"Random runs (n <= 7, m <= 4) interleave Next, Save (also twice), crash+restart from the newest checkpoint, restart from an older checkpoint, fork (clone kept next to the original, both advanced in tape order), drain and drop for up to 4 workers, with chains of restores. Non-trivial = R has >= 2 graphs (and at least one restore or fork in random runs); distinct = distinct fingerprints.",
+			"One random run in 40 uses 'window mode' on searches far too long to enumerate (n = 9, 10, unpruned or pruned): one pass over the first 5000-35000 graphs with a Save/Load probe every 50-450 steps; after each probe the clone must reproduce the next 40-300 steps of the original. The other random runs (n <= 7, m <= 4) interleave Next, Save (also twice), crash+restart from the newest checkpoint, restart from an older checkpoint, fork (clone kept next to the original, both advanced in tape order), drain and drop for up to 4 workers, with chains of restores. Non-trivial = R has >= 2 graphs (and at least one restore or fork in random runs); distinct = distinct fingerprints.",
 		Assumptions: []string{
 			"only completed Saves are restored: Save panics on a write error by design and the property is silent about torn checkpoints, so no write error is injected",
 			"the same predicate functions are supplied to Load as to the original iterator",
@@ -527,6 +599,23 @@ func main() {
 				return
 			}
 			t := r.T
+			if t.Chance(1, 40) {
+				// half of the window runs: the unsharded, unpruned search on 10 vertices (the
+				// densest DFS levels); the others: n = 9/10 with shards and predicates
+				e.c = config{n: 10, a: 0, m: 1, pred: -1}
+				if t.Chance(1, 2) {
+					n := t.Range(9, 10)
+					m := 1 + t.Draw(3)
+					e.c = config{n: n, a: t.Draw(m), m: m, pred: -1}
+					if t.Chance(1, 2) {
+						e.c.pred = []int{0, 6, 1}[t.Draw(3)]
+						e.c.placement = t.Draw(2)
+					}
+				}
+				e.pre, e.pru = e.c.funcs()
+				e.window()
+				return
+			}
 			n := t.Range(0, 7)
 			m := 1 + t.Draw(4)
 			e.c = config{n: n, a: t.Draw(m), m: m, pred: -1}
